@@ -294,8 +294,11 @@ class SyntaxCheckInstance(Visitor):
     def _visit_for(self, stmt: ForStmt, ctx: _Ctx):
         env = ctx.env
         self._visit_expr(stmt.iterable, ctx)
-        env = self._visit_binding(stmt.target, env)
-        body_env = self._visit_block(stmt.body, _Ctx(env, False))
+        # the body sees the loop target, but the loop may run zero times, so
+        # what holds afterwards is merged with the environment *before* the
+        # target was bound: the target is not defined on that path
+        loop_env = self._visit_binding(stmt.target, env)
+        body_env = self._visit_block(stmt.body, _Ctx(loop_env, False))
         return env.merge(body_env)
 
     def _visit_context(self, stmt: ContextStmt, ctx: _Ctx):
